@@ -1,13 +1,14 @@
 /-
   NR.RangeCheck — the start-time-window lookup (common/rangecheck.go, C02): windows are
   discretised into minute slots (`toSlotInfo`), `Check(t)` reads the slot of `t`'s minute.
-  Transcribed branch for branch, including the two index guards that test the MINUTE index `i`
-  where the interval index was meant (`i-1 >= 0`, `i+1 < len(intervals)`), and
-  `stopImpl.ToEarliestStartValue` on top of it (model_stop.go).
+  Transcribed branch for branch — the loop is parametrised by which index its two neighbour guards test:
+  the given code tested the MINUTE index `i` where the interval index was meant (`i-1 >= 0`,
+  `i+1 < len(intervals)`; E26: three zero-length windows in the second minute of the epoch index out of
+  range), the repaired code tests the interval index — and `stopImpl.ToEarliestStartValue` on top of it
+  (model_stop.go).
 
   Times are rationals ≥ 0 (seconds since the model epoch); an interval is `[min, max)`.
-  `none` = the Go indexes out of range (possible only for a first window that does not start on a
-  minute boundary — `stopImpl.SetWindows` rejects such windows before building the checker).
+  `none` = the Go indexes out of range.
 -/
 namespace NR.RangeCheck
 
@@ -23,34 +24,49 @@ deriving Repr, DecidableEq
 
 def ivAt (ivs : List Iv) (k : Int) : Option Iv := if k < 0 then none else ivs[k.toNat]?
 
-/-- The inner loop of `toSlotInfo` for minute `i`, from interval index `k` on. -/
-def slotLoop (ivs : List Iv) (i : Int) : Nat → Nat → Option Slot
+/-- Outcome of one test of the loop body: leave the loop with a slot, index out of range, or go on. -/
+inductive Step
+  | done (s : Slot)
+  | panic
+  | next
+deriving Repr, DecidableEq
+
+/-- Third test of the loop body (`second >= intervals[interval].Max && g+1 < len && second < intervals[interval+1].Min`). -/
+def third (ivs : List Iv) (k : Nat) (iv : Iv) (second : Rat) (g : Int) : Step :=
+  if second ≥ iv.2 ∧ g + 1 < (ivs.length : Int) then
+    match ivs[k + 1]? with
+    | none => .panic                                   -- `intervals[interval+1]` out of range
+    | some nx => if second < nx.1 then .done ⟨false, some nx.1⟩ else .next
+  else .next
+
+/-- Second test (`second < intervals[interval].Min && g-1 >= 0 && second >= intervals[interval-1].Max`), then the third. -/
+def secondThird (ivs : List Iv) (k : Nat) (iv : Iv) (second : Rat) (g : Int) : Step :=
+  if second < iv.1 ∧ g - 1 ≥ 0 then
+    match ivAt ivs (k - 1 : Int) with
+    | none => .panic                                   -- `intervals[interval-1]` out of range
+    | some pv => if second ≥ pv.2 then .done ⟨false, some iv.1⟩ else third ivs k iv second g
+  else third ivs k iv second g
+
+/-- The inner loop of `toSlotInfo` for minute `i`, from interval index `k` on. `guardByMinute = true`
+is the loop as it was before the repair of E26: the two index guards test the MINUTE `i` where the
+interval index was meant; `false` is the repaired loop (`interval-1 >= 0`, `interval+1 < len`).
+`none` = the Go indexes out of range. -/
+def slotLoopG (guardByMinute : Bool) (ivs : List Iv) (i : Int) : Nat → Nat → Option Slot
   | 0, _ => some ⟨false, none⟩
   | fuel + 1, k =>
     match ivs[k]? with
     | none => some ⟨false, none⟩                      -- loop ends: not in an interval, no next
     | some iv =>
       let second : Rat := i * 60
+      let g := if guardByMinute then i else (k : Int)
       if second ≥ iv.1 ∧ second < iv.2 then some ⟨true, none⟩
-      else if second < iv.1 ∧ i - 1 ≥ 0 then
-        -- `second >= intervals[interval-1].Max` is evaluated: index -1 panics
-        match ivAt ivs (k - 1 : Int) with
-        | none => none
-        | some pv =>
-          if second ≥ pv.2 then some ⟨false, some iv.1⟩
-          else slotLoop3 ivs i fuel k iv second
-      else slotLoop3 ivs i fuel k iv second
-where
-  /-- third test of the loop body, then the next iteration -/
-  slotLoop3 (ivs : List Iv) (i : Int) (fuel k : Nat) (iv : Iv) (second : Rat) : Option Slot :=
-    if second ≥ iv.2 ∧ i + 1 < (ivs.length : Int) then
-      match ivs[k + 1]? with
-      | none => none                                   -- `intervals[interval+1]` out of range
-      | some nx => if second < nx.1 then some ⟨false, some nx.1⟩ else slotLoop ivs i fuel (k + 1)
-    else slotLoop ivs i fuel (k + 1)
+      else match secondThird ivs k iv second g with
+        | .done s => some s
+        | .panic => none
+        | .next => slotLoopG guardByMinute ivs i fuel (k + 1)
 
 /-- `toSlotInfo` + `Check`: (in interval?, next opening or -1). `ivs` sorted by start, non-empty. -/
-def check (ivs : List Iv) (t : Rat) : Option (Bool × Rat) :=
+def checkG (guardByMinute : Bool) (ivs : List Iv) (t : Rat) : Option (Bool × Rat) :=
   match ivs.head?, ivs.getLast? with
   | some first, some last =>
     let minimum := minuteOf first.1
@@ -59,10 +75,15 @@ def check (ivs : List Iv) (t : Rat) : Option (Bool × Rat) :=
     if idx < 0 then some (false, first.1)
     else if idx ≥ maximum - minimum then some (false, -1)
     else
-      match slotLoop ivs (minuteOf t) (ivs.length + 1) 0 with
+      match slotLoopG guardByMinute ivs (minuteOf t) (ivs.length + 1) 0 with
       | none => none
       | some s => some (s.inInterval, s.next.getD (-1))
   | _, _ => none
+
+/-- the code as it is now (E26 repaired) -/
+abbrev check := checkG false
+/-- the code as it was given -/
+abbrev checkOld := checkG true
 
 /-- `stopImpl.ToEarliestStartValue` for a stop with windows. -/
 def toEarliestStart (ivs : List Iv) (arrival : Rat) : Option Rat :=
@@ -79,10 +100,38 @@ def earliestStart (ws : List Iv) (a : Rat) : Rat :=
     | some w => w.1
     | none => a
 
-/-- Windows as `SetWindows` accepts them: non-empty, each non-empty-or-degenerate with `min ≤ max`,
-sorted and non-overlapping, starting after the epoch, on minute boundaries. -/
+/-- Windows as `SetWindows` accepts them (a superset, see `accepts`): non-empty, each with
+`0 ≤ min ≤ max`, sorted and non-overlapping, on minute boundaries. -/
 def WF (ws : List Iv) : Prop :=
-  ws ≠ [] ∧ (∀ w ∈ ws, 0 < w.1 ∧ w.1 ≤ w.2 ∧ (∃ m : Int, w.1 = m * 60) ∧ (∃ m : Int, w.2 = m * 60)) ∧
+  ws ≠ [] ∧ (∀ w ∈ ws, 0 ≤ w.1 ∧ w.1 ≤ w.2 ∧ (∃ m : Int, w.1 = m * 60) ∧ (∃ m : Int, w.2 = m * 60)) ∧
   ws.Pairwise (fun a b => a.2 ≤ b.1)
+
+/-! ### What the stop API accepts (`stopImpl.SetWindows`, then `processIntervals`) -/
+
+/-- `t.Second() == 0 && t.Nanosecond() == 0` for a time `x` seconds after the (minute aligned) epoch. -/
+def aligned (x : Rat) : Bool := decide (((x / 60).floor : Rat) * 60 = x)
+
+/-- The validation loop of `SetWindows`: start not after end, start not before the previous end, both
+on a minute boundary. -/
+def setWindowsLoop : Option Iv → List Iv → Bool
+  | _, [] => true
+  | prev, w :: rest =>
+    decide (w.1 ≤ w.2) &&
+    (match prev with | some p => decide (p.2 ≤ w.1) | none => true) &&
+    aligned w.1 && aligned w.2 && setWindowsLoop (some w) rest
+
+def inIv (w : Iv) (t : Rat) : Bool := decide (w.1 ≤ t ∧ t < w.2)
+
+/-- `processIntervals`: no window contains another window's start or its last second; no negative time.
+(Its sort is the identity on what `setWindowsLoop` lets through.) -/
+def processOK (ws : List Iv) : Bool :=
+  (List.range ws.length).all (fun i => (List.range ws.length).all (fun j =>
+    i == j || match ws[i]?, ws[j]? with
+      | some a, some b => !(inIv a b.1 || inIv a (b.2 - 1))
+      | _, _ => true)) &&
+  ws.all (fun w => decide (0 ≤ w.1 ∧ 0 ≤ w.2))
+
+/-- `SetWindows` returns nil and installs the lookup table. -/
+def accepts (ws : List Iv) : Bool := !ws.isEmpty && setWindowsLoop none ws && processOK ws
 
 end NR.RangeCheck
